@@ -1721,6 +1721,9 @@ lyds_merge(struct lyd_node **first_dst, struct lyd_node **leader_dst, struct lyd
         /* just merge and move source nodes */
         ret = lyds_merge_nodes1(first_dst, leader_dst, root_meta_dst, rbt_dst, first_src, leader_src, next_p);
     } else if (!rbt_dst && rbt_src) {
+        /* release empty destination metadata (e.g. of a duplicated node), the source metadata will replace it */
+        lyd_free_meta_single(root_meta_dst);
+
         /* merge destination nodes with RB tree, move RB tree and source nodes */
         ret = lyds_merge_nodes2(first_dst, leader_dst, first_src, leader_src, root_meta_src, rbt_src, next_p);
     } else {
